@@ -267,8 +267,60 @@ def run(tier):
         else:
             stats["whole_corpus_programs"] += 1
             v.distinct(("corp", m, tuple(prog)))
+    # (7) NEAR-DUPLICATE neighbours: consecutive lines that are variations of one line - same text up to the last digit of the
+    # displacement / immediate or up to the last register, also with numbers zero-padded so that the common prefix is 40-90 characters
+    # long. Anything that recognises "the same line again" by less than the whole text shows here.
+    import re as _re
+    REGSWAP = {"rax": "rcx", "rcx": "rdx", "rbx": "rsi", "rdx": "rbx", "r8": "r9", "r9": "r10", "r10": "r11", "r11": "r9", "r12": "r14", "r13": "r15", "eax": "ecx", "ecx": "edx", "r9d": "r10d",
+               "ax": "cx", "al": "cl", "xmm1": "xmm2", "xmm9": "xmm10", "ymm1": "ymm2", "ymm3": "ymm4", "ymm9": "ymm11", "ymm11": "ymm9", "mm1": "mm2"}
+
+    def variants(t):
+        out = []
+        m = list(_re.finditer(r"(0x[0-9a-f]+|\b\d+)", t))
+        if m:
+            a, b = m[-1].span()
+            num = t[a:b]
+            last = num[-1]
+            out.append(t[:b - 1] + {"0": "8", "8": "0", "1": "3", "9": "1"}.get(last, "0" if last != "0" else "2") + t[b:])
+            if num.startswith("0x") and len(t) < 80:
+                pad = "0x" + "0" * (70 - len(t)) + num[2:]
+                out.append(t[:a] + pad + t[b:])
+                out.append(t[:a] + pad[:-1] + ("7" if pad[-1] != "7" else "3") + t[b:])
+        m2 = list(_re.finditer(r"\b([a-z]+[0-9]*[a-z]?)\b", t))
+        for mm in reversed(m2):
+            if mm.group(1) in REGSWAP:
+                out.append(t[:mm.start()] + REGSWAP[mm.group(1)] + t[mm.end():])
+                break
+        return [x for x in out if x != t]
+    longs = [t for t in pok if len(t) >= 24]
+    seeds7 = rnd.sample(longs, min(len(longs), 500 if not full else 8000))
+    fam7 = {t: variants(t) for t in seeds7}
+    allv = sorted(set(x for vs in fam7.values() for x in vs))
+    valone = corpus.accepted_alone(binary, allv, "211")
+    items, m7 = [], []
+    for t, vs in fam7.items():
+        vs = [x for x in vs if x in valone and valone[x]]
+        if not vs:
+            continue
+        encs7 = dict((x, valone[x]) for x in vs)
+        encs7[t] = palone["211"][t]
+        for order in ([t] + vs + [t], vs + [t] + vs[::-1], [t, vs[0], t, vs[-1], vs[0]]):
+            items.append(("211", "\n".join(order), 0))
+            m7.append((order, "".join(encs7[x] for x in order)))
+    r7 = common.run_lines(binary, items, tag="c06n")
+    stats["near_duplicate_programs"] = 0
+    for (order, exp), r in zip(m7, r7):
+        v.count()
+        case = {"key": "near-duplicates %s" % " | ".join(order)[:300], "fam": "concat_neardup", "program": order}
+        if "crash" in r:
+            v.violation(case, r["crash"]["sig"], r["crash"]["stderr"][-800:])
+        elif r["rc"] != 0 or r["bytes"] != exp:
+            v.violation(case, "program!=concatenation-of-its-lines", "rc=%s got %s want %s" % (r["rc"], (r.get("bytes") or "")[:240], exp[:240]))
+        else:
+            stats["near_duplicate_programs"] += 1
+            v.distinct(("nd", tuple(order)))
     v.cov["rule"] = ("representative set R (one line per structural group of the C01-C05 generators + skipped lines: comments, labels, section/global, blanks), enc(l) = line alone on a fresh "
                      "instance with the same options; all ordered pairs of R; seeded programs of 3-200 lines x all 2^(k-1) splits for k<=7 (random splits beyond) x start offsets {0,1,19,4095} x prefill "
-                     "{00,CC,FF,90} x repetition after asm_set_offset; programs assembled over the code of a sibling program (same lines, other constants) or of themselves; one line / a pair of lines repeated 300 and 66000 times in one call; 1500 (40000) programs of 3-14 lines drawn from the whole corpus (several lines of one mnemonic with other operands, zero- and many-operand lines in between); oracle: byte equality with the concatenation and offset == start + total")
+                     "{00,CC,FF,90} x repetition after asm_set_offset; programs assembled over the code of a sibling program (same lines, other constants) or of themselves; one line / a pair of lines repeated 300 and 66000 times in one call; 1500 (40000) programs of 3-14 lines drawn from the whole corpus (several lines of one mnemonic with other operands, zero- and many-operand lines in between); programs of near-duplicate neighbours (lines equal up to the last digit / register, common prefixes of up to 90 characters); oracle: byte equality with the concatenation and offset == start + total")
     v.cov["exhaustive"] = False
     return v.finish(stats, stats["representative_lines"] >= 100 and stats["pairs"] > 5000, "representative set too small: %r" % stats)
